@@ -235,10 +235,9 @@ Section RoundTrip.
 
   Lemma rt_err_kind k : reply_ok q minor (FErr (Kind k)) (err_msg u (encode_io_error_kind k)) = true.
   Proof.
-    start. destruct (err_msg_fields u (encode_io_error_kind k) Hu) as [H1 [H2 [H3 H4]]].
-    rewrite H1, H2, H3, H4, !N.eqb_refl. rewrite neg32_neg32 by apply kind_errno_range.
-    pose proof (kind_errno_range k) as [Ha Hb]. unfold valid_errno. cbn [andb].
-    apply andb_true_intro; split; apply N.leb_le; assumption.
+    start. replace (kind_errno k) with (encode_io_error_kind k).
+    - apply is_error_reply_err_msg. exact Hu.
+    - destruct k as [|p]; [reflexivity|]. do 3 (destruct p as [p|p|]; try reflexivity).
   Qed.
 
   Lemma rt_err e : reply_ok q minor (FErr e) (err_msg u (errno_of e)) = true.
